@@ -150,7 +150,7 @@ fn distribution(k: usize) -> Vec<String> {
     let idx: Vec<usize> = if k % 2 == 1 { (0..CORPUS.len()).rev().collect() } else { (0..CORPUS.len()).collect() };
     if k >= 6 {
         // one item alone in its own file (k = 6: the path-qualified attribute, k = 7: the unsupported item), the rest over the other two
-        let alone = if k == 6 { 2 } else { CORPUS.len() - 1 };
+        let alone = if k == 6 { CORPUS.iter().position(|c| c.0 == "Qualified").unwrap() } else { CORPUS.len() - 1 };
         for i in idx { if i == alone { files[2].push_str(CORPUS[i].1); } else { files[i % 2].push_str(CORPUS[i].1); } }
         return files;
     }
